@@ -1,4 +1,4 @@
-(* C02 — Variable binding is verbatim, single-pass and never changes the argument count.
+(* C02 — binding of variables is verbatim, single-pass and never changes the argument count.
    Property theorems only; every proof is [exact <lemma>].
    Model: Expansion.v (expand_by_wrapper, bind_command_arguments) over Parser.v (reparse_arguments);
    specification: ExpansionSpec.v (templates, render, denote, words, known-finding classes). *)
